@@ -355,6 +355,13 @@ def step (st : DState) (j : Json) : DState × Json :=
   | "c4enc" => (st, Json.mkObj [("s", String.ofList (c4OfBytes (unhexStr (jstr j "hex"))))])
   | "c4dec" => (st, Json.mkObj [("hex", match c4ToBytes (jstr j "s").toList with
       | some b => Json.str (hexOf b) | none => Json.null)])
+  -- path glue of the command line (posixpath)
+  | "normpath" => (st, Json.mkObj [("r", MhlModel.Paths.normpath (jstr j "s"))])
+  | "joinpath" => (st, Json.mkObj [("r", MhlModel.Paths.joinPath (jstr j "a") (jstr j "b"))])
+  | "relpath" => (st, Json.mkObj [("r", MhlModel.Paths.relpath (jstr j "cwd") (jstr j "path") (jstr j "start"))])
+  | "sfpath" =>
+    let f := if jstr j "cmd" == "verify" then MhlModel.Paths.sfOfVerify else MhlModel.Paths.sfOfCreate
+    (st, Json.mkObj [("r", f (jstr j "cwd") (jstr j "root") (jstr j "sf"))])
   | "hexenc" => (st, Json.mkObj [("s", hexOf (unhexStr (jstr j "hex")))])
   | "unhex" => (st, Json.mkObj [("hex", match unhex (jstr j "s").toList with
       | some b => Json.str (hexOf b) | none => Json.null)])
